@@ -19,7 +19,7 @@ LEVEL_TEXT = (
     "the independent least-fixed-point solver."
 )
 LEVEL_NOTE = (
-    "Trusted: U1 strategies are productive in the paper's sense (every cycle passes through a Peel with a positive "
+    "Trusted: U1 strategies are productive in the paper's sense (Factor strictly shrinks the alphabet, so no cycle passes through it; every cycle passes through a Peel with a positive "
     "shift), the LFP oracle (self-tested in C03), brute-force emptiness up to size 6."
 )
 TECHNIQUE = "property-based testing over generated universes with structural re-derivation and a reference fixed-point solver (Hypothesis)"
